@@ -97,6 +97,19 @@ def run(ctx, only=None):
                             memory_obs_run_r=ref.obs["r"][:14],
                             subscribers=[[list(spec), [list(e[:2]) for e in out], fin]
                                          for spec, out, fin in ref.subs["r"]][:4]), limit=4)
+    # several store objects on one database (two processes / before and after a restart): monitor only
+    if not only:
+        n2o, alts = ctx.n(40, 600), 0
+        for i in range(n2o):
+            out2, facts2 = EL.two_objects_case(rng, ctx.scratch, "c16")
+            alts += facts2["alternations"]
+            ctx.count(1, ("two-objects", facts2["objects"], facts2["appends"], facts2["single_connection"], i))
+            for w in out2:
+                fails.append(dict(key="C16/several-store-objects-one-database", what=w, backend="sqlite, %d store objects" % facts2["objects"],
+                                  ops=[], case=-2))
+        ctx.programs += n2o
+        ctx.suite("eventlog.two_objects", cases=n2o, alternating_appends=alts)
+        ctx.require_coverage("eventlog.two_objects", "alternating_appends", alts, 20)
     # _stream_events: parameter / header precedence (finite pools, all combinations)
     cexprs, cdescr, cfails = EL.cursor_cases()
     for key, what in cfails:
